@@ -322,7 +322,8 @@ class Gen:
         if d <= 0 or r < 0.50:
             k = self.r.random()
             if k < 0.14:
-                v = self.r.choice(["a", "b"])
+                # a fresh qubit into a local or (re-binding) into an owned parameter
+                v = self.r.choice(["a", "b"] + [x for x in ("q", "r") if x in self.sig["init"] and x not in self.sig["borrowed"]])
                 return [p + f"{v} = qubit()"], st | {v}
             if k < 0.30 and pl:
                 return [p + f"h({self.r.choice(pl)})"], st
@@ -343,8 +344,8 @@ class Gen:
                 if self.r.random() < 0.6:
                     return [p + "t = (a, b)", p + "a, b = t"], st
                 return [p + "t = (a, b)", p + "eat_t(t)"], st - {"a", "b"}
-            if k < 0.84 and {"a", "b"} <= st and "s" not in st:
-                return [p + "s = S(a, b)"], (st - {"a", "b"}) | {"s"}
+            if k < 0.84 and {"a", "b"} <= st and ("s" not in st or self.r.random() < 0.25) and "s" not in self.sig["borrowed"]:
+                return [p + "s = S(a, b)"], (st - {"a", "b"}) | {"s"}      # (sometimes over a struct that is still live)
             if k < 0.90 and "s" in st:
                 return [p + self.r.choice(["eat_s(s)", "use_s(s)", "s.a = qubit()", "a = s.a", "discard(s.b)"])], st
             if k < 0.95 and len(pl) >= 2:
@@ -441,6 +442,15 @@ FIXED = [
     "def k25(q: qubit @ owned, r: qubit) -> None:\n    if cond():\n        use2(q, r)\n    discard(q)\n    h(r)\n",
     "def k26(q: qubit @ owned) -> None:\n    while cond():\n        a = q\n        q = a\n    discard(q)\n",
     "def k27(q: qubit @ owned) -> None:\n    while cond():\n        a = q\n        if cond():\n            q = a\n        else:\n            discard(a)\n            break\n",
+    "def k28(q: qubit @ owned) -> None:\n    if cond():\n        discard(q)\n        q = qubit()\n    else:\n        discard(q)\n",
+    "def k29(q: qubit @ owned) -> None:\n    if cond():\n        discard(q)\n        q = qubit()\n        return\n    discard(q)\n",
+    "def k30(s: S @ owned) -> None:\n    while cond():\n        discard(s.a)\n        s.a = qubit()\n    eat_s(s)\n",
+    "def k31(s: S @ owned) -> None:\n    while cond():\n        discard(s.a)\n        s.a = qubit()\n        if cond():\n            discard(s.a)\n            s.a = qubit()\n            discard(s.b)\n            return\n    eat_s(s)\n",
+    "def k32(q: qubit @ owned) -> None:\n    discard(q)\n    q = qubit()\n    discard(q)\n",
+    "def k33(s: S @ owned) -> None:\n    s = S(qubit(), qubit())\n    eat_s(s)\n",
+    "def k34() -> None:\n    t = (qubit(), qubit())\n    t = (qubit(), qubit())\n    eat_t(t)\n",
+    "def k35(s: S @ owned) -> None:\n    discard(s.a)\n    s = S(qubit(), qubit())\n    eat_s(s)\n",
+    "def k36(s: S @ owned) -> None:\n    eat_s(s)\n    s = S(qubit(), qubit())\n    eat_s(s)\n",
     "def k15(q: qubit @ owned) -> None:\n    while cond():\n        a = qubit()\n        if cond():\n            continue\n        discard(a)\n    discard(q)\n",
 ]
 
